@@ -53,7 +53,7 @@ def oracle(spec: dict, res: dict, failing: bool):
 class C07(Property):
     pid = "C07"
     title = "Recorded provenance is complete and acyclic"
-    lean_targets = ["SFV.Model.Exec", "SFV.Model.TfMachine", "SFV.Model.LoopComb", "SFV.Gen.StepGuards", "SFV.Props.C07", "SFV.Props.C07Net"]
+    lean_targets = ["SFV.Model.Exec", "SFV.Model.TfMachine", "SFV.Model.LoopComb", "SFV.Model.LoopNet", "SFV.Gen.StepGuards", "SFV.Props.C07", "SFV.Props.C07Net"]
     props_files = ["SFV/Props/C07.lean", "SFV/Props/C07Net.lean"]
     drivers = ["Drivers/Net.lean"]
     translators = []
@@ -62,7 +62,9 @@ class C07(Property):
             "one third of the workflows with an injected transformer failure (table-level checks only). Checked per run: dependee id < "
             "depender id on every row, no dangling id, no cycle (DFS), every data token of every port persisted, the edge set (tokens "
             "identified by port:tag) equal to what the property demands (oracle) and to the Lean model `prov` (driver); job outputs linked "
-            "to their job token and inputs. Non-trivial = workflow whose run records >= 4 provenance rows.")
+            "to their job token and inputs. Additionally 3 (quick) / 12 (thorough) RECOVERY cases of the recovery harness (sfv.rt.recov: "
+            "failed jobs retried through recovery workflows): table-level clauses on the whole database. Non-trivial = workflow whose "
+            "run records >= 4 provenance rows.")
     trusted_base = [
         "hand-written model lean/SFV/Model/Net.lean `nodeProv` (which inputs each step class passes to _persist_token) compared with the "
         "real provenance table on every run; persistence log model lean/SFV/Model/Prov.lean",
@@ -77,7 +79,8 @@ class C07(Property):
                   "step; edge sets compared with the real database on every run; engine layers abstracted as in C04")
     level_note = "Lean kernel, axioms within {propext, Classical.choice, Quot.sound}; tables of the real runs checked directly and against the model"
     assumptions = [
-        "well-formed workflows as generated; no recovery workflows (the recovery harness of C16 is not part of this check)",
+        "well-formed workflows as generated; on recovery workflows only the table-level clauses (ids increase, no dangling id, acyclic) "
+        "are checked, not the exact edge sets",
         "control tokens put directly (TerminationToken, IterationTerminationToken) are not persisted — excluded by the statement",
     ]
     quick_budget_s = 600
@@ -146,6 +149,7 @@ class C07(Property):
             if not failing:
                 lines.append(f"prov {wfcheck.spec_words(spec)}")
                 metas.append((spec, runs))
+        self._recovery_runs(ctx)
         got = ctx.lean("Drivers/Net.lean", lines)
         for g, (spec, runs) in zip(got, metas):
             for r in runs:
@@ -159,8 +163,55 @@ class C07(Property):
                                  {"spec": spec, "failing": False, "seed": r["seed"], "shuffle": r["shuffle"]})
                     break
 
+    def _recovery_runs(self, ctx: Ctx) -> None:
+        """the same table-level clauses on RECOVERY workflows: a6's recovery harness (sfv.rt.recov: pipelines, scatters, loops,
+        diamonds built with the repo's RecoveryTranslator, rollback failure manager, soft and fail-stop failures in the
+        schedule / transfer / execute phases), with the token and provenance tables dumped before the context is closed"""
+        from sfv.props.c16 import plans, shapes
+        from sfv.rt import recovprov
+        from sfv.rt.par import pmap
+
+        if ctx.time_left() < 150:
+            ctx.notes.append("recovery runs skipped: not enough time left")
+            return
+        rng = ctx.rng
+        ncases = 12 if ctx.tier == "thorough" else 3
+        cases = []
+        shs = shapes(rng, True)
+        rng.shuffle(shs)
+        for sh in shs:
+            for pl in plans(rng, sh, True):
+                cases.append({"name": json.dumps(sh, sort_keys=True), "shape": sh, "plan": pl, "max_retries": 6, "timeout": 60})
+        rng.shuffle(cases)
+        cases = cases[:ncases]
+        for case, status, r in pmap(recovprov.run_case_with_db, cases, timeout=150, workers=min(4, len(cases))):
+            db = r.get("db") if isinstance(r, dict) else None
+            if status != "ok" or not db:
+                ctx.notes.append(f"recovery case {case['name']}: no tables ({status}: {str(r)[:200]})")
+                ctx.count("recovery-harness-error")
+                continue
+            retried = any(v > 1 for v in (r.get("attempts") or {}).values())
+            key = ("recovery", case["name"], json.dumps(case["plan"], sort_keys=True)) if len(db["provenance"]) >= 4 else None
+            ctx.case({"recovery_case": {"shape": case["shape"], "plan": case["plan"]}, "outcome": r.get("outcome"), "retried": retried,
+                      "workflows": db["workflows"], "token_rows": len(db["tokens"]), "provenance_rows": len(db["provenance"])},
+                     key, "recovery+" + case["shape"]["kind"])
+            ctx.count("recovery-workflows-in-db", db["workflows"])
+            for kind, detail in recovprov.table_problems(db)[:5]:
+                ctx.fail("recovery:" + {"order": "dependee-id-not-smaller-than-depender-id", "dangling": "provenance-row-with-unknown-token-id",
+                                        "cycle": "provenance-cycle"}[kind], detail,
+                         {"recovery_case": {"shape": case["shape"], "plan": case["plan"], "max_retries": 6}})
+
     def replay(self, ctx: Ctx, data) -> None:
         r = data.get("replay") or data.get("case") or (data.get("no_longer_checks") or [{}])[0].get("case")
+        if r and "recovery_case" in r:
+            from sfv.rt import recovprov
+            res = recovprov.run_case_with_db(dict(r["recovery_case"], timeout=60))
+            print("recovery case:", json.dumps(r["recovery_case"]))
+            print("outcome:", res.get("outcome"), "attempts:", res.get("attempts"))
+            print("provenance:", (res.get("db") or {}).get("provenance"))
+            for kind, detail in recovprov.table_problems(res["db"]) if res.get("db") else []:
+                ctx.fail("recovery:" + kind, detail, r)
+            return
         if not r or "spec" not in r:
             return super().replay(ctx, data)
         spec, failing = r["spec"], r.get("failing", False)
